@@ -17,3 +17,7 @@ def write_if_changed(path, text):
 
 
 GENERATORS = []
+
+# C03: tabulated triangle quadrature rules and the geometric-kernel structure of FunctionSpace/Mesh
+from . import tab_c03 as _tab_c03   # noqa: E402
+GENERATORS.append(_tab_c03.generate)
